@@ -8,11 +8,12 @@
 //!
 //! Gen lines:
 //!   cell.new <plain|tracked|bomb> <c>      cell.get      cell.init <ok|err|panic> <d>
-//!   cell.initinf <d>  (get_or_init)        cell.state    cell.drop     cell.malformed <n>
+//!   cell.initinf <ok|panic> <d>  (get_or_init, the infallible entry point; `cell.initinf <d>` = ok)
+//!   cell.state    cell.drop     cell.malformed <n>
 //!   cell.conc-run <kind> <c> <reps> T <calls…> T <calls…> …   free-running threads, `reps` rounds
 //!   cell.overlap <kind> <c> <call> <calls…>   first call's initialiser is held inside the closure
 //!                                             while `get` and the other calls are issued
-//! calls: g | o<d> | e<d> | p<d>.
+//! calls: g | o<d> | e<d> | p<d> (get_or_try_init: Ok / Err / panic) | O<d> | P<d> (get_or_init: returns / panics).
 //! The oracle is written from the property statement (call counts, addresses, ledger), not from the model.
 
 use crate::common::*;
@@ -83,15 +84,18 @@ enum AnyCell {
 enum OK { Ok, Err, Panic }
 
 #[derive(Clone, Copy, PartialEq, Eq, Debug)]
-enum Call { Get, Init(OK, u64), InitInf(u64) }
+enum Call { Get, Init(OK, u64), /// through `get_or_init`; the outcome is Ok or Panic
+    InitInf(OK, u64) }
 
 fn parse_call(s: &str) -> Call {
     if s == "g" { return Call::Get; }
     let d: u64 = s[1..].parse().expect("call delta");
-    match &s[..1] { "o" => Call::Init(OK::Ok, d), "e" => Call::Init(OK::Err, d), "p" => Call::Init(OK::Panic, d), o => panic!("cell engine: bad call {o}") }
+    match &s[..1] { "o" => Call::Init(OK::Ok, d), "e" => Call::Init(OK::Err, d), "p" => Call::Init(OK::Panic, d),
+        "O" => Call::InitInf(OK::Ok, d), "P" => Call::InitInf(OK::Panic, d), o => panic!("cell engine: bad call {o}") }
 }
 fn call_str(c: Call) -> String {
-    match c { Call::Get => "g".into(), Call::Init(OK::Ok, d) | Call::InitInf(d) => format!("o{d}"), Call::Init(OK::Err, d) => format!("e{d}"), Call::Init(OK::Panic, d) => format!("p{d}") }
+    match c { Call::Get => "g".into(), Call::Init(OK::Ok, d) => format!("o{d}"), Call::Init(OK::Err, d) => format!("e{d}"), Call::Init(OK::Panic, d) => format!("p{d}"),
+        Call::InitInf(OK::Panic, d) => format!("P{d}"), Call::InitInf(_, d) => format!("O{d}") }
 }
 
 #[derive(Clone, Copy, PartialEq, Eq, Debug, PartialOrd, Ord)]
@@ -141,7 +145,11 @@ fn do_call_on<U: SeedLike>(cell: &OnceInitCell<U, Val>, c: Call, p: &Probe, gate
     let r = catch_unwind(AssertUnwindSafe(|| match c {
         Call::Get => match cell.get() { Some(v) => Res::Ref(v.n, v as *const Val as usize), None => Res::None },
         Call::Init(k, d) => match cell.get_or_try_init(|u| run_f(u, k, d, p, gate)) { Ok(v) => Res::Ref(v.n, v as *const Val as usize), Err(e) => Res::Err(e) },
-        Call::InitInf(d) => { let v = cell.get_or_init(|u| run_f(u, OK::Ok, d, p, gate).ok().unwrap()); Res::Ref(v.n, v as *const Val as usize) }
+        Call::InitInf(k, d) => {
+            let k = if k == OK::Panic { OK::Panic } else { OK::Ok }; // the infallible entry point has no Err
+            let v = cell.get_or_init(|u| match run_f(u, k, d, p, gate) { Ok(v) => v, Err(_) => unreachable!() });
+            Res::Ref(v.n, v as *const Val as usize)
+        }
     }));
     match r {
         Ok(r) => r,
@@ -306,7 +314,8 @@ const MALFORMED: &[&str] = &["cell.init maybe 1", "cell.init ok", "cell.new gold
 
 fn rand_call(rng: &mut Prng) -> Call {
     let d = rng.below(4) as u64;
-    match rng.below(10) { 0..=2 => Call::Get, 3..=5 => Call::Init(OK::Ok, d), 6..=7 => Call::Init(OK::Err, d), _ => Call::Init(OK::Panic, d) }
+    match rng.below(14) { 0..=2 => Call::Get, 3..=5 => Call::Init(OK::Ok, d), 6..=7 => Call::Init(OK::Err, d), 8..=9 => Call::Init(OK::Panic, d),
+        10..=11 => Call::InitInf(OK::Ok, d), _ => Call::InitInf(OK::Panic, d) }
 }
 
 impl Engine for CellEngine {
@@ -314,10 +323,11 @@ impl Engine for CellEngine {
 
     fn gen_case(&mut self, rng: &mut Prng, tier: Tier, idx: usize) -> Vec<String> {
         let mut l = vec![];
-        let alpha = ["cell.get", "cell.init ok 1", "cell.init err 2", "cell.init panic 3"];
+        let alpha = ["cell.get", "cell.init ok 1", "cell.init err 2", "cell.init panic 3", "cell.initinf ok 1", "cell.initinf panic 3"];
         match idx {
             0 => {
-                // every call sequence of length 3 over {get, ok, err, panic}, every seed kind, state after each call, then drop
+                // every call sequence of length 3 over {get, try-ok, try-err, try-panic, infallible-ok, infallible-panic}, every seed kind,
+                // state after each call, then drop
                 for k in KINDS { for a in alpha { for b in alpha { for c in alpha {
                     l.push(format!("cell.new {} 5", k.name()));
                     for x in [a, b, c] { l.push(x.to_string()); l.push("cell.state".into()); }
@@ -328,12 +338,12 @@ impl Engine for CellEngine {
             }
             1 => {
                 // every pair of single-call threads, every kind, free-running
-                let calls = ["g", "o1", "e2", "p3"];
+                let calls = ["g", "o1", "e2", "p3", "O1", "P3"];
                 for k in KINDS { for a in calls { for b in calls { l.push(format!("cell.conc-run {} 5 {} T {a} T {b}", k.name(), if tier == Tier::Thorough { 300 } else { 40 })); } } }
             }
             2 => {
                 // forced overlap: every outcome of the held initialiser × every single other call, every kind
-                for k in KINDS { for a in ["o1", "e2", "p3"] { for b in ["g", "o4", "e5", "p6"] { l.push(format!("cell.overlap {} 7 {a} {b}", k.name())); } } }
+                for k in KINDS { for a in ["o1", "e2", "p3", "O1", "P3"] { for b in ["g", "o4", "e5", "p6", "O4", "P6"] { l.push(format!("cell.overlap {} 7 {a} {b}", k.name())); } } }
                 for m in 0..MALFORMED.len() { l.push(format!("cell.malformed {m}")); }
             }
             _ => match idx % 4 {
@@ -345,9 +355,8 @@ impl Engine for CellEngine {
                             let c = rand_call(rng);
                             l.push(match c {
                                 Call::Get => "cell.get".to_string(),
-                                Call::Init(OK::Ok, d) if rng.chance(1, 2) => format!("cell.initinf {d}"),
                                 Call::Init(k, d) => format!("cell.init {} {d}", match k { OK::Ok => "ok", OK::Err => "err", OK::Panic => "panic" }),
-                                Call::InitInf(d) => format!("cell.initinf {d}"),
+                                Call::InitInf(k, d) => format!("cell.initinf {} {d}", if k == OK::Panic { "panic" } else { "ok" }),
                             });
                             if rng.chance(1, 3) { l.push("cell.state".into()); }
                         }
@@ -362,7 +371,7 @@ impl Engine for CellEngine {
                     l.push(s);
                 }
                 _ => {
-                    let a = Call::Init(*rng.pick(&[OK::Ok, OK::Err, OK::Panic]), rng.below(5) as u64);
+                    let a = match rng.below(5) { 0 => Call::InitInf(OK::Ok, rng.below(5) as u64), 1 => Call::InitInf(OK::Panic, rng.below(5) as u64), _ => Call::Init(*rng.pick(&[OK::Ok, OK::Err, OK::Panic]), rng.below(5) as u64) };
                     let mut s = format!("cell.overlap {} {} {}", rng.pick(&KINDS).name(), rng.below(50), call_str(a));
                     for _ in 0..rng.range(1, 4) { s.push(' '); s.push_str(&call_str(rand_call(rng))); }
                     l.push(s);
@@ -391,7 +400,8 @@ impl Engine for CellEngine {
                     let Some(lv) = live.as_mut() else { rec.op(line.clone(), "bad-op"); continue };
                     let call = match w[0] {
                         "cell.get" => Call::Get,
-                        "cell.initinf" => Call::InitInf(w[1].parse().expect("delta")),
+                        "cell.initinf" if w.len() == 2 => Call::InitInf(OK::Ok, w[1].parse().expect("delta")),
+                        "cell.initinf" => Call::InitInf(match w[1] { "ok" => OK::Ok, "panic" => OK::Panic, o => panic!("cell engine: get_or_init outcome {o}") }, w[2].parse().expect("delta")),
                         _ => Call::Init(match w[1] { "ok" => OK::Ok, "err" => OK::Err, "panic" => OK::Panic, o => panic!("cell engine: outcome {o}") }, w[2].parse().expect("delta")),
                     };
                     if lv.blocked.get() { continue; }
@@ -399,7 +409,7 @@ impl Engine for CellEngine {
                     let runs0 = lv.probe.f_runs.load(Ordering::SeqCst);
                     let r = match call { Call::Get => match lv.get_guarded(rec, &ctx) { Some(r) => r, None => continue }, _ => lv.cell.call(call, &lv.probe, &None) };
                     let ran = lv.probe.f_runs.load(Ordering::SeqCst) - runs0;
-                    let model_line = match call { Call::InitInf(d) => format!("cell.init ok {d}"), _ => line.clone() };
+                    let model_line = match call { Call::InitInf(k, d) => format!("cell.initinf {} {d}", if k == OK::Panic { "panic" } else { "ok" }), _ => line.clone() };
                     rec.op(model_line, r.show());
                     rec.nontrivial = true;
                     rec.stat(format!("{}/{}", w[0], match r { Res::None => "none", Res::Ref(..) => "ref", Res::Err(_) => "err", Res::PanicF => "panicF", Res::PanicDrop => "panicDrop" }));
@@ -413,7 +423,7 @@ impl Engine for CellEngine {
                             }
                         }
                         _ => {
-                            let (k, d) = match call { Call::Init(k, d) => (k, d), Call::InitInf(d) => (OK::Ok, d), Call::Get => unreachable!() };
+                            let (k, d) = match call { Call::Init(k, d) | Call::InitInf(k, d) => (k, d), Call::Get => unreachable!() };
                             if lv.succeeded {
                                 if ran != 0 { rec.oracle_fail(format!("init-ran-twice {ctx}: an initialiser ran although the cell was initialised")); }
                                 if !matches!(r, Res::Ref(..)) { rec.oracle_fail(format!("init-lost {ctx}: initialised cell answered {r:?}")); }
